@@ -110,9 +110,26 @@ func submit(node *gomavlib.Node, drw *dialect.ReadWriter, chs []*gomavlib.Channe
 		return
 	}
 	mrw := drw.GetMessage(0)
-	raw := mrw.Write(serialMsg(s.serial), true)
-	f := &frame.V2Frame{SequenceNumber: s.hdr[0], SystemID: s.hdr[1], ComponentID: s.hdr[2], Message: raw}
-	f.Checksum = f.GenerateChecksum(mrw.CRCExtra())
+	var f frame.Frame
+	switch s.serial % 3 {
+	case 0: // pre-encoded v2 frame
+		raw := mrw.Write(serialMsg(s.serial), true)
+		ff := &frame.V2Frame{SequenceNumber: s.hdr[0], SystemID: s.hdr[1], ComponentID: s.hdr[2], Message: raw}
+		ff.Checksum = ff.GenerateChecksum(mrw.CRCExtra())
+		f = ff
+	case 1: // v1 frame carrying a decoded message whose payload ends in zero bytes (a v2 node must keep it v1)
+		m := &minimal.MessageHeartbeat{CustomMode: uint32(s.serial)}
+		ff := &frame.V1Frame{SequenceNumber: s.hdr[0], SystemID: s.hdr[1], ComponentID: s.hdr[2], Message: mrw.Write(m, false)}
+		ff.Checksum = ff.GenerateChecksum(mrw.CRCExtra())
+		ff.Message = m
+		f = ff
+	default: // v2 frame carrying a decoded message
+		m := &minimal.MessageHeartbeat{CustomMode: uint32(s.serial)}
+		ff := &frame.V2Frame{SequenceNumber: s.hdr[0], SystemID: s.hdr[1], ComponentID: s.hdr[2], Message: mrw.Write(m, true)}
+		ff.Checksum = ff.GenerateChecksum(mrw.CRCExtra())
+		ff.Message = m
+		f = ff
+	}
 	switch s.kind {
 	case 3:
 		node.WriteFrameAll(f) //nolint:errcheck
